@@ -61,6 +61,15 @@ sim = tlc.run('Placement.tla', 's.cfg', tag='c16s', files={'s.cfg': cfg.replace(
               simulate={'num': 300 if c.quick else 3000}, depth=15, seed=c.seed, timeout=600)
 sb = tlc.sim_behaviours(sim)
 tlc.cleanup(sim)
+# many shards: three groups of up to 8 shards (sorting / searching code switches algorithm with the number of entries)
+big = cfg.replace('MaxEvents = %d' % consts['ev'], 'MaxEvents = 12').replace('Groups = %s' % consts['groups'], 'Groups = {1, 2, 3}').replace(
+    'MaxShards = %d' % consts['shards'], 'MaxShards = 8')
+sim2 = tlc.run('Placement.tla', 's2.cfg', tag='c16s2', files={'s2.cfg': big}, simulate={'num': 150 if c.quick else 1500}, depth=13, seed=c.seed + 1, timeout=600)
+sb2 = tlc.sim_behaviours(sim2)
+tlc.cleanup(sim2)
+if not sb2:
+    c.inconclusive('TLC -simulate with many shards produced no behaviours: %s' % (sim2.error or sim2.output[-500:]))
+sb += sb2
 allb = behs + sb
 f = c.write_behaviours('graph', allb)
 res = c.run_harness(binp, ['-mode', 'replay', '-in', f], timeout=1200)
